@@ -333,7 +333,14 @@ func (w *gworld) doEvict(keys []int, bump bool) {
 		}
 	}
 	if bump {
+		ran := false
+		defer func() {
+			if !ran {
+				w.fail(viol(w.prop+"/cleanup-not-run", "EvictWithCleanup(%v) returned without having run its cleanup", keys))
+			}
+		}()
 		w.exec.EvictWithCleanup(anyKeys, func() {
+			ran = true
 			if w.probeLocks {
 				if _, canRLock := w.exec.VerifDirtyState(); canRLock {
 					w.fail(viol(w.prop+"/cleanup-without-exclusive-lock", "the eviction cleanup runs while a Run could take the shared lock"))
